@@ -58,6 +58,37 @@ def stringfBodyAsIs (format : Bytes) (args : List Arg) (sprintf : Bytes) : Bytes
   | some b => b
   | none => sprintf
 
+/-- the `Write` calls `Stringf` issues after the header, in order: on the fast path the non-empty ones of
+    prefix, value, suffix (zero-copy, up to three); otherwise the single `Write` of `fmt.Fprintf` -/
+def stringfWrites (format : Bytes) (args : List Arg) (sprintf : Bytes) : List Bytes :=
+  match args with
+  | [.str v] =>
+    match cutPctS format with
+    | none => [sprintf]
+    | some (pre, post) => if countPct format != 1 then [sprintf] else [pre, v, post].filter (fun x => !x.isEmpty)
+  | _ => [sprintf]
+
+/-- `Stringf` on a response writer whose `k`-th Write fails (`k = 0`: never): (success reported, bytes
+    delivered). A failed Write ends the call with an error (after the K19i fix also on the fast path). -/
+def stringfOnFlaky (k : Nat) (format : Bytes) (args : List Arg) (sprintf : Bytes) : Bool × Bytes :=
+  let ws := stringfWrites format args sprintf
+  if k ≥ 1 && ws.length ≥ k then (false, (ws.take (k - 1)).flatten) else (true, ws.flatten)
+
+/-- as shipped (K19i): an error of the fast path — also a write error — sent Stringf into the
+    `fmt.Fprintf` fallback, which wrote the whole response behind what had already been delivered -/
+def stringfOnFlakyAsIs (k : Nat) (format : Bytes) (args : List Arg) (sprintf : Bytes) : Bool × Bytes :=
+  let ws := stringfWrites format args sprintf
+  if k ≥ 1 && ws.length ≥ k then
+    (if (fastPath format args).isSome then (true, (ws.take (k - 1)).flatten ++ sprintf)
+     else (false, (ws.take (k - 1)).flatten))
+  else (true, ws.flatten)
+
+/-- Content-Type of `String` (0), `HTML` (1), `Data` (2) on a fresh response -/
+def plainCType (kind : Nat) (ct : Bytes) : Bytes :=
+  if kind == 0 then "text/plain".toList
+  else if kind == 1 then "text/html".toList
+  else if ct.isEmpty then "application/octet-stream".toList else ct
+
 /-- Content-Type after `String` / `Stringf`: kept when already set -/
 def stringfCType (pre : Bytes) : Bytes := if pre.isEmpty then "text/plain".toList else pre
 
